@@ -184,7 +184,14 @@ def make_history(seed, i, max_ops=4):
         if crash_then_render and s == 0:
             fixed = dict(structures=["nested"], p_nested=0.5, p_list_obj=0.25, n_shapes=rng.randint(3, 5), depth=3,
                          p_variant=0.0, n_models=1, p_missing=0.0, width=rng.randint(2, 4))
+        rich = not fixed and rng.random() < 0.15
+        if rich:
+            # a slot rich in containers whose objects become Dict fields (every kind of nested typing code is rendered)
+            fixed = dict(p_container=0.6, container_kinds=["dict_like", "dict_mixed_keys", "list_str", "list_mixed", "dict_empty"],
+                         scalar_kinds=["str_plain", "str_enum", "int", "str_int"], bulk=0, chain=False)
         w = gen_workload(seeds.derive(seed, PROP, i, "slot", s), **fixed)
+        if rich:
+            w["options"]["dict_keys_regex"] = [r"\d+", r"[a-h]\d", r"[a-z]+"]
         slot_w[s] = w
         slot_fixed[s] = fixed
     if twin:
@@ -325,13 +332,16 @@ def make_history(seed, i, max_ops=4):
         else:
             s = rng.choice(generated)
             ops.append(render_op(s, crash=rng.random() < 0.2))
-    if rng.random() < 0.2:
+    if rng.random() < 0.35:
         # probe: a tiny generation (one model, a few plain required fields of the kinds used before) rendered with a
         # framework used earlier in the history - anything an earlier call left behind (imports, styles, names) shows
         renders = [o for o in ops if o["op"] == "RENDER"]
         kinds = [k for k in ("int", "str_int", "str_float", "str_plain", "str_bool", "bool", "float")]
         sp = max(slot_w) + 10
-        probe_w = gen_workload(seeds.derive(seed, PROP, i, "probe"), scalar_kinds=rng.sample(kinds, k=rng.randint(1, 3)),
+        probe_kinds = rng.sample(kinds, k=rng.randint(1, 3))
+        if rng.random() < 0.4:
+            probe_kinds = ["str_plain"] + probe_kinds[:rng.randint(0, 1)]  # (plain literals: the smallest import header)
+        probe_w = gen_workload(seeds.derive(seed, PROP, i, "probe"), scalar_kinds=probe_kinds,
                                n_shapes=1, width=rng.randint(1, 3), depth=0, n_models=1, samples=rng.randint(1, 3),
                                p_null=0.0, p_missing=0.0, p_hetero=0.0, p_container=0.0, p_self=0.0, bulk=0, chain=False,
                                p_numeric_twin=0.0, p_collide=0.0, key_styles=["snake"])
@@ -498,7 +508,7 @@ def minimise(pool, ops, i):
 def run(ctx):
     rep = ctx.reporter(PROP, LEVEL)
     quick = ctx.tier == "quick"
-    n = int((3000 if quick else 60000) * ctx.scale)
+    n = int((4500 if quick else 60000) * ctx.scale)
     max_ops = 4 if quick else 6
     histories = [make_history(ctx.seed, i, max_ops=(4 if (quick or i % 3) else 6)) for i in range(n)]
     distinct, samples = set(), []
